@@ -26,7 +26,7 @@ def rels (eqv lt : Bool) : String :=
     are therefore run on the images under the order isomorphism u ↦ (u + 2^31) mod 2^32, which preserves equality and
     turns the signed order into the natural one.  Only `compare` / `rel` depend on the order of units. -/
 def ordKey (l : Line) (xs : List Nat) : List Nat :=
-  if (l.str? "ct").getD "char" == "wchar" then xs.map (fun u => (u + 2147483648) % 4294967296) else xs
+  if (l.str? "ct").getD "char" == "wchar" then xs.map Spec.signedKey32 else xs
 
 def step (_ : Unit) (l : Line) : Unit × String :=
   let bad := ((), "bad-op\tbad-op")
@@ -62,23 +62,32 @@ def step (_ : Unit) (l : Line) : Unit × String :=
     | some h, some n, some p => out (fmtE fmtPos (findLastNotOf h n p)) (fmtPos (Spec.findLastNotOf h n p))
     | _, _, _ => bad
   | "compare" =>
-    match (l.natList? "a").map (ordKey l), (l.natList? "b").map (ordKey l) with
-    | some a, some b =>
+    -- model: the translated `compare` on the order keys; spec: for `ct=wchar` the signed comparison of the raw units
+    -- (`Props.cmpSigned_eq_cmp_key` relates the two)
+    let wide := (l.str? "ct").getD "char" == "wchar"
+    let scmp (x y : List Nat) : Int := if wide then Spec.cmpSigned x y else Spec.cmp x y
+    match l.natList? "a", l.natList? "b" with
+    | some a0, some b0 =>
+      let a := ordKey l a0
+      let b := ordKey l b0
       match posArg l "pos1", posArg l "count1", posArg l "pos2", posArg l "count2" with
       | some p1, some c1, some p2, some c2 =>
-        out (fmtE toString (compare5 a p1 c1 b p2 c2)) (toString (Spec.cmp (Spec.substr a p1 c1) (Spec.substr b p2 c2)))
+        out (fmtE toString (compare5 a p1 c1 b p2 c2)) (toString (scmp (Spec.substr a0 p1 c1) (Spec.substr b0 p2 c2)))
       | some p1, some c1, _, _ =>
-        out (fmtE toString (compare3 a p1 c1 b)) (toString (Spec.cmp (Spec.substr a p1 c1) b))
-      | _, _, _, _ => out (fmtE toString (compare a b)) (toString (Spec.cmp a b))
+        out (fmtE toString (compare3 a p1 c1 b)) (toString (scmp (Spec.substr a0 p1 c1) b0))
+      | _, _, _, _ => out (fmtE toString (compare a b)) (toString (scmp a0 b0))
     | _, _ => bad
   | "rel" =>
-    match (l.natList? "a").map (ordKey l), (l.natList? "b").map (ordKey l) with
-    | some a, some b =>
+    let wide := (l.str? "ct").getD "char" == "wchar"
+    match l.natList? "a", l.natList? "b" with
+    | some a0, some b0 =>
+      let a := ordKey l a0
+      let b := ordKey l b0
       let m := do
         let e ← viewEq a b
         let c ← compare a b
         pure (rels e (c < 0))
-      let c := Spec.cmp a b
+      let c := if wide then Spec.cmpSigned a0 b0 else Spec.cmp a0 b0
       out (fmtE id m) (rels (c == 0) (c < 0))
     | _, _ => bad
   | "starts_with" =>
